@@ -377,6 +377,14 @@ def _cost(kind, a, b, c):
     return lambda x: a * x + b
 
 
+def _f(v):
+    # (a one-element array stands for its element)
+    try:
+        return float(v)
+    except TypeError:
+        return float(list(v)[0])
+
+
 def impl_graddesc(case):
     from bartiq.analysis import Optimizer
 
@@ -392,8 +400,8 @@ def impl_graddesc(case):
         return {"cls": 1}
     except RuntimeError:
         return {"cls": 2}
-    return {"cls": 0, "opt": float(r["optimal_value"]).hex(), "cost": float(r["minimum_cost"]).hex(),
-            "hist": [float(h).hex() for h in r["x_history"]]}
+    return {"cls": 0, "opt": _f(r["optimal_value"]).hex(), "cost": _f(r["minimum_cost"]).hex(),
+            "hist": [_f(h).hex() for h in r["x_history"]]}
 
 
 def impl_minimize(case):
@@ -407,6 +415,13 @@ def impl_minimize(case):
             minimize("(x - 1)**2 + 1", "x", optimizer="gradient_descent", optimizer_kwargs=kw)
         except (ValueError, RuntimeError):
             pass
+    if case.get("x0_array"):
+        # the start handed over the way scipy-style callers do: a one-element array
+        try:
+            import numpy as _np
+            kw["x0"] = _np.array([float(case["x0"])])
+        except ImportError:
+            pass
     param = case.get("param", "x")
     import re as _re
     expr = _re.sub(r"\bx\b", param, case["expr"])
@@ -416,8 +431,8 @@ def impl_minimize(case):
         return {"cls": 1}
     except RuntimeError:
         return {"cls": 2}
-    return {"cls": 0, "opt": float(r["optimal_value"]).hex(), "cost": float(r["minimum_cost"]).hex(),
-            "hist": [float(h).hex() for h in r["x_history"]]}
+    return {"cls": 0, "opt": _f(r["optimal_value"]).hex(), "cost": _f(r["minimum_cost"]).hex(),
+            "hist": [_f(h).hex() for h in r["x_history"]]}
 
 
 # ------------------------------------------------------------------ size mismatches (C06)
@@ -564,9 +579,28 @@ def impl_repro(case):
             out["mutated_input_doc"] = True
     except Exception:
         pass
+    # derived-resource calculators come and go: what an earlier, since discarded calculator looked like must not decide how a
+    # later one is called (two calling conventions: with and without resource_name)
+    try:
+        def _mk_named(extra):
+            def _calc(routine, backend, resource_name):
+                return len(routine.children) + extra if resource_name == "zz_kids" else None
+            return _calc
+        try:
+            cold = compile_routine(doc, derived_resources=[{"name": "zz_kids", "type": "other", "calculate": _mk_named(1)}]).to_qref().model_dump_json()
+        except Exception:
+            cold = None      # (a hierarchy that cannot be compiled with an extra resource of type other: nothing to compare)
+        for _k in range(12 if cold is not None else 0):
+            compile_routine(doc, derived_resources=[{"name": "zz_tmp", "type": "other", "calculate": (lambda routine, backend, _k=_k: _k)}])
+            compile_routine(doc, derived_resources=[{"name": "zz_kids", "type": "other", "calculate": _mk_named(1)}])
+        warm = cold if cold is None else compile_routine(doc, derived_resources=[{"name": "zz_kids", "type": "other", "calculate": _mk_named(1)}]).to_qref().model_dump_json()
+        if warm != cold:
+            out["compile_repeatable_after_churn"] = False
+    except Exception:
+        out["compile_repeatable_after_churn"] = False
     exp1 = res1.to_qref().model_dump_json()
     exp2 = res2.to_qref().model_dump_json()
-    out["compile_repeatable"] = exp1 == exp2 and res1.routine == res2.routine
+    out["compile_repeatable"] = exp1 == exp2 and res1.routine == res2.routine and out.pop("compile_repeatable_after_churn", True)
     out["export_sha"] = hashlib.sha256(exp1.encode()).hexdigest()
     out["export"] = _json.loads(exp1)
     # export must not change the compiled routine, and be repeatable
